@@ -30,10 +30,13 @@ class RAM(MemoryType):
 
     def read(self, address, size):
         chunk = self.memory_array[address:address + size]
-        return chunk
+        # bytes past the end of the device read as zero
+        return chunk + bytes(size - len(chunk))
 
     def write(self, address, size, value):
-        self.memory_array[address:address + size] = value
+        # bytes past the end of the device are dropped: a write never resizes the device
+        available = max(len(self.memory_array) - address, 0)
+        self.memory_array[address:address + size] = value[:min(size, available)]
 
 
 MEMORY_TYPE_DICT = {
